@@ -289,6 +289,8 @@ func (y *vSys) op(kind int) {
 			ok = vAnd(vAnd(y.got[n].topic == "w/new", bytes.Equal(y.got[n].payload, p1)), vAnd(y.got[n+1].topic == "w/new", bytes.Equal(y.got[n+1].payload, p2)))
 		}
 		vAssert(ok, "C26.burst_reaches_handler")
+		// the multi-level wildcard also matches its parent level (MQTT 3.1.1, 4.7.1.2)
+		y.deliver("w", 0)
 	case 4: // Subscribe to a short topic
 		q := vC26Qos("sub_qos")
 		y.call(func() error { return cl.Subscribe("ab", q, y.handler("short")) })
